@@ -129,6 +129,8 @@ def run_property(prop, module, tier, configs, extra=None):
     for cfg in configs:
         facts = load_facts(cfg)
         ctx.facts, ctx.config = facts, cfg
+        ctx.has_css = any(f["name"] == "display" for a in facts.raw["adts"] if a["path"] == "ComputedStyle"
+                          for f in a["variants"][0]["fields"])
         nb = len(facts.bodies)
         ncalls = sum(len(b.calls()) for b in facts.bodies.values())
         sizes[cfg] = {"bodies": nb, "call_sites": ncalls}
